@@ -144,7 +144,12 @@ def run_property(prop, pc, kf, tier, seed, sc, t0):
                 # (Verus reports every failing clause; clauses it does not report are proved)
                 'discharged': not failed_here and (bool(vd['success']) or any(f['function'] == name for f in sem)),
             })
+        seen_v = set()
         for f in mine:
+            key = (f['function'], f['kind'], f.get('clause_line'))
+            if key in seen_v:      # the same clause failing at several exits of one function is one violation
+                continue
+            seen_v.add(key)
             f = dict(f, unit=bv['unit'])
             e = known(kf, prop, f)
             if e:
